@@ -8,6 +8,7 @@ import (
 	"math/rand"
 	"strings"
 	"sync"
+	"sync/atomic"
 	"testing"
 	"time"
 
@@ -578,6 +579,21 @@ func TestC08(t *testing.T) {
 			run.Sample(sc)
 		}
 	}
+	for i, nm := range []int{1500} {
+		id := fmt.Sprintf("backlog/%d", nm)
+		if !run.Mine(i+5) || !run.Want(id) {
+			continue
+		}
+		run.Journal(id, "")
+		var res []*c01Result
+		err := Bubble(t, func() { res = runC08Backlog(run, run.Seed()*71+int64(i), nm) })
+		if err != nil {
+			res = append(res, &c01Result{"C08/bubble", err.Error()})
+		}
+		for _, r := range res {
+			run.Violation(id, r.Key, r.What, map[string]any{"members": nm})
+		}
+	}
 	for i := 0; i < run.Pick(6, 200); i++ {
 		variant := []string{"overlapping-leaves", "update-in-alive-delegate"}[i%2]
 		id := fmt.Sprintf("real/%s/%d", variant, i)
@@ -602,10 +618,73 @@ func TestC08(t *testing.T) {
 			}
 		}
 		run.Require("leave|update-in-flight")
-		run.Require("real|overlapping-leaves", "real|update-in-alive-delegate")
+		run.Require("real|overlapping-leaves", "real|update-in-alive-delegate", "leave|behind-backlog|members>=1500")
 	}
 	run.Complete()
 	if run.Violations() > 0 {
 		t.Errorf("%d violation(s)", run.Violations())
 	}
+}
+
+// runC08Backlog: Leave is called while the node's broadcast queue holds well over a thousand announcements it has
+// not transmitted yet (it has just merged a large cluster's state). The departure queues behind them; when Leave
+// returns nil a datagram carrying it must have left the node.
+func runC08Backlog(run *Run, seed int64, members int) (out []*c01Result) {
+	fail := func(key, f string, a ...any) {
+		out = append(out, &c01Result{"C08/" + key, fmt.Sprintf(f, a...)})
+	}
+	rig, err := NewRig(RigOpts{Seed: seed, Spec: NodeSpec{Name: "V", IP: "10.9.9.9", NoEvents: true, Mutate: func(cf *memberlist.Config) {
+		cf.ProbeInterval = noProbe
+		cf.PushPullInterval = 0
+		cf.GossipInterval = 200 * time.Millisecond
+	}}})
+	if err != nil {
+		fail("harness/create", "%v", err)
+		return
+	}
+	defer rig.Close()
+	var departures atomic.Int64
+	rig.C.Net.OnPacket = append(rig.C.Net.OnPacket, func(ev *PacketEvent) {
+		if ev.From != rig.V.EP.Addr || ev.Closed {
+			return
+		}
+		pi := ParsePacket(ev.Buf, rig.Keys)
+		if pi.Err != nil {
+			return
+		}
+		for _, l := range pi.Leaves {
+			var d WDead
+			if l.Type == TDead && mpDecode(l.Body, &d) == nil && d.Node == "V" && d.From == "V" {
+				departures.Add(1)
+			}
+		}
+	})
+	x := rig.AddPeer("x", "10.9.1.1", 7946)
+	rig.Introduce(x, 1)
+	Settle(3 * time.Second) // the node's own first announcement has gone out
+	nodes := []WPushNodeState{x.Self(1)}
+	for i := 0; i < members; i++ {
+		nodes = append(nodes, WPushNodeState{Name: fmt.Sprintf("member-%04d", i), Addr: []byte{10, 20, byte(i / 250), byte(1 + i%250)}, Port: 7946, Incarnation: 1, State: SAlive, Meta: []byte("some-metadata"), Vsn: DefaultVsn()})
+	}
+	if _, _, err := x.PushPull(false, nodes, nil); err != nil {
+		fail("harness/pushpull", "%v", err)
+		return
+	}
+	Settle(time.Millisecond)
+	queued := rig.V.ML().VerifNumQueued()
+	run.Cell("leave", "behind-backlog", fmt.Sprintf("members>=%d", 500*(members/500)))
+	errc := make(chan error, 1)
+	go func() { errc <- rig.V.ML().Leave(5 * time.Minute) }()
+	var lerr error
+	select {
+	case lerr = <-errc:
+	case <-time.After(10 * time.Minute):
+		fail("leave-blocked-past-timeout", "Leave(5m) behind %d queued broadcasts had not returned after 10 minutes", queued)
+		return
+	}
+	run.Eval(1)
+	if lerr == nil && departures.Load() == 0 {
+		fail("no-departure-sent/behind-backlog", "Leave returned nil with %d other members known and %d broadcasts queued ahead of the departure, but no datagram carrying the departure (dead{Node=From=V}) has left the node", members+1, queued)
+	}
+	return
 }
